@@ -11,7 +11,8 @@ import argparse, hashlib, json, os, subprocess, sys, time, shutil, re
 
 VERIF = os.path.dirname(os.path.dirname(os.path.abspath(__file__)))
 REPO = os.environ.get("VERIF_REPO", "/repo")
-BUILD = os.path.join(VERIF, ".build")
+# VERIF_BUILD lets a second, concurrent user of this tree (self-tests) build elsewhere
+BUILD = os.environ.get("VERIF_BUILD") or os.path.join(VERIF, ".build")
 GO = "go1.26.8"
 NPROC = int(os.environ.get("VERIF_WORKERS", "16"))
 
